@@ -35,6 +35,21 @@ type HandshakeCase struct {
 	// CutExtra[i]: attempt i's connection is closed this many packets after the commit event of Cuts[i]
 	// (0: right behind it), i.e. possibly inside the next transaction
 	CutExtra []int `json:",omitempty"`
+	// EmptyName: the caller sets the start position with an empty file name (= the master's first file);
+	// until a rotation tells the replica a name, positions in that file carry the empty name
+	EmptyName bool `json:",omitempty"`
+}
+
+// withEmptyName adds, for every allowed position in the first file, the same offset under the empty name.
+func withEmptyName(allowed map[hist.Pos]bool, first string) map[hist.Pos]bool {
+	out := map[hist.Pos]bool{}
+	for k, v := range allowed {
+		out[k] = v
+		if k.File == first {
+			out[hist.Pos{File: "", Off: k.Off}] = v
+		}
+	}
+	return out
 }
 
 // cutAfterCommits truncates the script right after the n-th commit event it carries.
@@ -117,12 +132,16 @@ func checkC07(c *HandshakeCase) error {
 		start.Off = 4
 	}
 	exp := l.Expected(start, 0)
-	ss, err := newSession(c.H.Tables, c.ServerID, start)
+	callerStart := start
+	if c.EmptyName {
+		callerStart.File = ""
+	}
+	ss, err := newSession(c.H.Tables, c.ServerID, callerStart)
 	if err != nil {
 		return fmt.Errorf("harness: %v", err)
 	}
 	defer ss.close()
-	allowed := map[hist.Pos]bool{start: true} // first attempt: exactly the SetBinlogPosition value
+	allowed := map[hist.Pos]bool{callerStart: true} // first attempt: exactly the SetBinlogPosition value
 	accepted := 0
 	for i := 0; i <= len(c.Cuts); i++ {
 		at := attempt{l: l}
@@ -132,7 +151,7 @@ func checkC07(c *HandshakeCase) error {
 			if k > accepted {
 				k = accepted
 			}
-			to := start
+			to := callerStart
 			if k > 0 {
 				to = exp[k-1].Next
 			}
@@ -148,6 +167,8 @@ func checkC07(c *HandshakeCase) error {
 			case c.Cuts[i] == -2: // the master rejects the checksum announcement
 				at.plan = &fakemaster.ConnPlan{QueryErr: fakemaster.ErrPacket(1227, "42000", "Access denied")}
 				connectFails = true
+			case c.Cuts[i] == -4: // the handler panics in its first call and the caller recovers
+				at.handler = func(tx *gobinlog.Transaction, st *attemptState) error { panic(handlerPanic{}) }
 			case c.Cuts[i] == -3: // the session is set up, then the write of the dump command fails on the replica's side
 				disarm := failDumpWrite()
 				defer disarm()
@@ -180,6 +201,9 @@ func checkC07(c *HandshakeCase) error {
 			}
 			continue // the position must be unchanged: judged by the next attempt's dump request
 		}
+		if c.EmptyName {
+			allowed = withEmptyName(allowed, c.H.FirstFile)
+		}
 		if err := checkCommands(st.plan.Cmds(), c.ServerID, allowed, i+1); err != nil {
 			return err
 		}
@@ -187,19 +211,30 @@ func checkC07(c *HandshakeCase) error {
 			return fmt.Errorf("attempt %d: harness could not serve %+v", i+1, st.dumpReq)
 		}
 		// deliveries continue the expectation (also guards the position bookkeeping of this check)
-		if err := compareTxs(st.got, exp[accepted:min(len(exp), accepted+len(st.got))], true); err != nil {
+		if err := compareTxs(st.got, exp[accepted:min(len(exp), accepted+len(st.got))], !c.EmptyName); err != nil {
 			return fmt.Errorf("attempt %d: %v", i+1, err)
 		}
 		accepted += len(st.got)
+		var asked *hist.Pos
+		if st.handlerPanicked {
+			// what the streamer keeps after a panic that unwound through Stream is not specified beyond this:
+			// it is the position the attempt started from or a resume point behind what was accepted
+			if req, ok := st.dump(); ok {
+				asked = &hist.Pos{File: req.File, Off: int64(req.Pos)}
+			}
+		}
 		if accepted > 0 || i > 0 || len(c.Cuts) > 0 {
 			// later attempts: the stored resume position = the commit boundary after the last accepted
 			// transaction (or a unit boundary / rotation target up to the next transaction)
 			allowed = allowedResume(l, exp, accepted, start, 0)
 			if accepted == 0 {
-				allowed = map[hist.Pos]bool{start: true}
+				allowed = map[hist.Pos]bool{callerStart: true}
 				for k, v := range allowedResume(l, exp, 0, start, 0) {
 					allowed[k] = v
 				}
+			}
+			if asked != nil {
+				allowed[*asked] = true
 			}
 		}
 	}
@@ -290,9 +325,10 @@ func TestC07(t *testing.T) {
 			c.H.Base = c.H.MinBase()
 		}
 		c.Deadlines = rapid.IntRange(0, 15).Draw(rt, "deadline_mask")
+		c.EmptyName = rapid.IntRange(0, 7).Draw(rt, "empty_start_name") == 0
 		na := rapid.IntRange(0, 3).Draw(rt, "failed_attempts")
 		for i := 0; i < na; i++ {
-			c.Cuts = append(c.Cuts, rapid.IntRange(-3, 3).Draw(rt, "cut"))
+			c.Cuts = append(c.Cuts, rapid.IntRange(-4, 3).Draw(rt, "cut"))
 			c.CutExtra = append(c.CutExtra, rapid.IntRange(0, 3).Draw(rt, "cut_extra"))
 		}
 		if na > 0 && rapid.IntRange(0, 2).Draw(rt, "rewinds") == 0 {
